@@ -189,6 +189,7 @@ func (e *Exec) loopCut(st *State, fr *Frame, b, pred *ssa.BasicBlock) bool {
 		env.pre = snap.pre
 		env.preLookup = snap.preLookup
 		env.water0 = snap.water
+		env.head, env.headLookup = snap.head, snap.headLookup
 		label := e.pathLabel(st, fr, spec, env)
 		if traceOn && label == "[?]" {
 			var trail []int
@@ -263,8 +264,25 @@ func (e *Exec) loopCut(st *State, fr *Frame, b, pred *ssa.BasicBlock) bool {
 			name := strings.Trim(label, "[]")
 			for _, c := range fr.ct.Cases[name] {
 				kw, lb, ex := splitCaseClause(c.Expr)
-				if kw == "ensures" {
+				switch kw {
+				case "ensures":
 					e.Assert(base+"/post["+lb+"]", "post", fr.fn.String(), st, e.evalBool(ex, env), ex)
+				case "stack":
+					var p, q int
+					fmt.Sscanf(ex, "-%d +%d", &p, &q)
+					g := fmt.Sprintf("len(vm.stack) == head(len(vm.stack)) - %d + %d", p, q)
+					e.Assert(base+"/post[stack]", "post", fr.fn.String(), st, e.evalBool(g, env), g)
+				case "stack-dyn":
+					g := fmt.Sprintf("len(vm.stack) == head(len(vm.stack)) - (%s) + 1", ex)
+					e.Assert(base+"/post[stack]", "post", fr.fn.String(), st, e.evalBool(g, env), g)
+				case "scopes":
+					var d int
+					fmt.Sscanf(ex, "%d", &d)
+					g := fmt.Sprintf("len(vm.scopes) == head(len(vm.scopes)) + %d", d)
+					if d < 0 {
+						g = fmt.Sprintf("len(vm.scopes) == head(len(vm.scopes)) - %d", -d)
+					}
+					e.Assert(base+"/post[scopes]", "post", fr.fn.String(), st, e.evalBool(g, env), g)
 				}
 			}
 		}
@@ -292,7 +310,8 @@ func (e *Exec) loopCut(st *State, fr *Frame, b, pred *ssa.BasicBlock) bool {
 		}
 	}
 	for _, a := range spec.EntryAsserts {
-		e.Assert(fmt.Sprintf("%s/loop:%s/entry[%s]", fname, ord, a.Label), "post", fr.fn.String(), st, e.evalBool(a.Expr, env), a.Expr)
+		// asserted, not assumed: the invariants below must hold on their own
+		e.AddVC(fmt.Sprintf("%s/loop:%s/entry[%s]", fname, ord, a.Label), "post", fr.fn.String(), st, Not(e.evalBool(a.Expr, env)), a.Expr)
 	}
 	for _, inv := range spec.Invariants {
 		e.Assert(fmt.Sprintf("%s/loop:%s/inv-init[%s]", fname, ord, inv.Label), "inv-init", fr.fn.String(), st, e.evalBool(inv.Expr, env), inv.Expr)
@@ -438,6 +457,8 @@ func (e *Exec) loopCut(st *State, fr *Frame, b, pred *ssa.BasicBlock) bool {
 	if spec.LabelBy != "" {
 		ns.labelTerm = e.evalSpec(spec.LabelBy, env).One()
 	}
+	ns.head = st.Clone()
+	ns.headLookup = e.nameLookup(ns.head, fr.Clone(), b)
 	fr.loopSnap[b] = ns
 	if e.LoopHeadHook != nil {
 		e.LoopHeadHook(e, st, fr, b, env)
